@@ -74,6 +74,10 @@ class Session:
     elif isinstance(v, tuple):
       for x in v:
         self._mutate(x)
+    elif isinstance(v, set):
+      v.add('MUTATED')
+    elif isinstance(v, bytearray):
+      v.extend(b'MUTATED')
 
   def _rec(self, oid, sel, params, extra, kw):
     if self.identifying:
